@@ -147,6 +147,13 @@ def check_expansion(ctx, rule="C19", only=None, default_tolerance_only=False):
     rest = None
     two_sided = False
     bound_ok = True
+    extras = []
+    if isinstance(t, ast.BoolOp) and isinstance(t.op, ast.And):
+        # `<remainder> > tol and <more>`: the further conjuncts can only end the expansion earlier; each is judged below
+        main = [c for c in t.values if isinstance(c, ast.Compare) and len(c.ops) == 1 and isinstance(c.ops[0], (ast.Gt, ast.GtE)) and A.contains_name(c.comparators[0], tol)]
+        if len(main) == 1:
+            extras = [c for c in t.values if c is not main[0]]
+            t = main[0]
     if isinstance(t, ast.Compare) and len(t.ops) == 1 and isinstance(t.ops[0], (ast.Gt, ast.GtE)) and A.norm(t.comparators[0]) != tol:
         # the remainder is compared with something derived from the tolerance: it must not exceed the tolerance itself
         # (the remainder is in units of pi, as is the documented tolerance)
@@ -171,6 +178,38 @@ def check_expansion(ctx, rule="C19", only=None, default_tolerance_only=False):
     if rest is None:
         ctx.error(R("G"), f"loop guard `{src(t)}` is not `<remainder> > {tol}` (or abs of it)")
         return
+    if extras:
+        # A further stop condition is harmless only if it cannot be false while the remainder is still above the tolerance.
+        #  - a test implied by `remainder > tol` (tol is positive): remainder > 0, >= 0, != 0
+        #  - a cap on the number of steps `len(steps) < K`: each step leaves less than 2 / n_max of the remainder
+        #    (remainder * 2^d lies in (n_max / 2, n_max] and its integer part is removed), the first remainder is below 2,
+        #    so K steps suffice for every angle iff 2 * (2 / n_max)^K <= the smallest tolerance in scope
+        sdefs = A.single_defs(fn)
+        nmax_v = None
+        for c_ in ast.walk(lp):
+            # the numerator bound is what the exponent is computed from: log2(<n_max> / remainder)
+            if isinstance(c_, ast.Call) and (dotted(c_.func) or "").split(".")[-1] == "log2" and c_.args and isinstance(c_.args[0], ast.BinOp) and isinstance(c_.args[0].op, ast.Div) and A.norm(c_.args[0].right) == rest:
+                v_ = ev.try_eval(A.expand(c_.args[0].left, sdefs), m)
+                if isinstance(v_, int) and v_ > 2:
+                    nmax_v = v_
+        tol_min = 1e-4 if default_tolerance_only else 1e-9
+        for c in extras:
+            verdict = None
+            why_ = ""
+            if isinstance(c, ast.Compare) and len(c.ops) == 1 and A.norm(c.left) == rest and isinstance(c.comparators[0], ast.Constant) and c.comparators[0].value == 0 and isinstance(c.ops[0], (ast.Gt, ast.GtE, ast.NotEq)):
+                verdict = True
+            elif isinstance(c, ast.Compare) and len(c.ops) == 1 and isinstance(c.ops[0], (ast.Lt, ast.LtE)) and isinstance(c.left, ast.Call) and dotted(c.left.func) == "len" and nmax_v:
+                k_ = ev.try_eval(A.expand(c.comparators[0], sdefs), m)
+                if isinstance(k_, int):
+                    steps = k_ + (1 if isinstance(c.ops[0], ast.LtE) else 0)
+                    left_over = 2.0 * (2.0 / nmax_v) ** steps
+                    verdict = left_over <= tol_min
+                    why_ = (f"the expansion stops after {steps} steps whatever the remainder; a step removes all but at most 2/{nmax_v} of it, so {steps} steps only guarantee "
+                            f"a remainder below {left_over:.3g} (in units of pi) - above the tolerance {tol_min:g} that is in scope: the returned steps miss the angle by more than the tolerance")
+            if verdict is None:
+                ctx.error(R("G"), f"loop guard conjunct `{src(c)}` is neither implied by the remainder test nor a step cap the checker can evaluate")
+                return
+            ctx.check(R("G"), "get_angle_spec_from_float:loop-runs-until-the-remainder-is-within-the-tolerance:no-earlier-stop", verdict, why_, repo.loc(m, lp), sample={"conjunct": src(c)})
     # ---- M: reduction and units
     if want("M"):
         pre = fn.body[:fn.body.index(lp)]
@@ -477,6 +516,7 @@ SEEDS = [
     dict(id="c19-no-assert", file=SP_FILE, expect="C19.B", construct="numerator-checked", old="        assert n <= n_max, \"Something went wrong, n is bigger than n_max\"\n", new=""),
     dict(id="c19-no-modulo", file=SP_FILE, expect="C19.M", construct="modulo-a-full-turn", old="    angle %= 2 * np.pi\n", new=""),
     dict(id="c19-units", file=SP_FILE, expect="C19.M", construct="units-of-pi", old="    rest = angle / np.pi\n", new="    rest = angle / (2 * np.pi)\n"),
+    dict(id="c19-step-cap-three", file=SP_FILE, expect="C19.G", construct="no-earlier-stop", old="    while rest > tol:", new="    while rest > tol and len(nds) <= 2:"),
     dict(id="c19-simplify-unbounded", file=SP_FILE, expect="C19.S", construct="exponent-non-negative", old="        while (n_new % 2) == 0 and d_new > 0:", new="        while (n_new % 2) == 0:"),
     dict(id="c19-simplify-d-only", file=SP_FILE, expect="C19.S", construct="simplification", old="            n_new, d_new = (int(n_new / 2), d_new - 1)", new="            n_new, d_new = (int(n_new / 2), d_new - 2)"),
     dict(id="c19-filter-below-default-tolerance", file=SP_FILE, expect="C19.F", construct="default-tolerance", old="        nds[i] = (n_new, d_new)\n    return nds\n", new="        nds[i] = (n_new, d_new)\n    nds = [(n, d) for (n, d) in nds if d < 16]\n    return nds\n"),
@@ -489,6 +529,8 @@ SEEDS = [
 BENIGN = [
     dict(id="c19-benign-stricter-loop-bound", file=SP_FILE, old="    while rest > tol:", new="    half = tol / 2\n    while rest > half:"),
     dict(id="c19-benign-filter-beyond-field-width", file=SP_FILE, old="        nds[i] = (n_new, d_new)\n    return nds\n", new="        nds[i] = (n_new, d_new)\n    nds = [(n, d) for (n, d) in nds if d < 256]\n    return nds\n"),
+    dict(id="c19-benign-step-cap-eight", file=SP_FILE, old="    while rest > tol:", new="    while rest > tol and len(nds) < 64 // IMMEDIATE_BITS:"),
+    dict(id="c19-benign-positive-remainder-conjunct", file=SP_FILE, old="    while rest > tol:", new="    while rest > 0 and rest > tol:"),
     dict(id="c19-benign-floor-div", file=SP_FILE, old="        n = int(np.floor(rest * 2**d))", new="        n = int(rest * 2**d // 1)"),
     dict(id="c19-benign-two-sided-guard-with-round", edits=[(SP_FILE, "    while rest > tol:", "    while abs(rest) > tol:")]),
 ]
